@@ -170,6 +170,8 @@ def run_path(I, c, fn, module, res):
             I.yield_hook = on_yield
         outcome = None
         try:
+            if isinstance(fn, ast.Lambda):
+                raise ReturnEx(I.ev(fn.body, fr))
             I.block(fn.body, fr)
             outcome = ('return', None, getattr(fn, 'end_lineno', fn.lineno))
         except ReturnEx as r:
